@@ -74,6 +74,25 @@ type Case struct {
 
 const hangLimit = 90 * time.Second
 
+// waitDone waits for done in one-second ticks and gives up after hangLimit worth of ticks. Counting
+// ticks instead of arming one long timer means that a frozen process or a stalled machine costs one
+// tick, however long the stall was.
+func waitDone(done <-chan struct{}) bool {
+	for i := 0; i < int(hangLimit/time.Second); i++ {
+		select {
+		case <-done:
+			return true
+		case <-time.After(time.Second):
+		}
+	}
+	select {
+	case <-done:
+		return true
+	default:
+		return false
+	}
+}
+
 func content(seed uint64, n int) []byte {
 	sm := gen.NewSM(seed)
 	b := make([]byte, n)
@@ -150,9 +169,10 @@ func (r *runner) fail(sig, format string, a ...any) {
 // not return within the (very generous) limit is recorded as a hang and ends the worker.
 func (r *runner) call(name string, f func()) {
 	var psig, pmsg string
-	hung, kind := harness.Watch(hangLimit, func() { psig, pmsg = harness.Catch(f) })
-	if hung {
-		harness.Record("hang:"+name, r.c, fmt.Sprintf("%s did not return within %v (%s)", name, hangLimit, kind))
+	done := make(chan struct{})
+	go func() { defer close(done); psig, pmsg = harness.Catch(f) }()
+	if !waitDone(done) {
+		harness.Record("hang:"+name, r.c, fmt.Sprintf("%s did not return within %v: %s%s", name, hangLimit, r.transcript(8), stacks()))
 		harness.ExitHung()
 	}
 	if psig != "" {
@@ -307,9 +327,7 @@ func (r *runner) connect() bool {
 		remote := c.Target
 		r.notePTT(c.DialScript...)
 		r.s.InboundConnect(c.DialScript, c.Mycall, remote, 500)
-		select {
-		case <-acc:
-		case <-time.After(hangLimit):
+		if !waitDone(acc) {
 			harness.Record("hang:Accept", c, "Accept did not return after TARGET/CONNECTED: "+r.transcript(10)+stacks())
 			harness.ExitHung()
 		}
@@ -569,9 +587,7 @@ func (r *runner) finishFlush() {
 		return
 	}
 	r.drain()
-	select {
-	case <-r.flushDone:
-	case <-time.After(hangLimit):
+	if !waitDone(r.flushDone) {
 		harness.Record("hang:Flush", r.c, "Flush did not return after BUFFER 0")
 		harness.ExitHung()
 	}
@@ -681,10 +697,8 @@ func (r *runner) end() {
 			}
 			r.s.ReleaseDisconnect()
 		}
-		select {
-		case <-done:
-		case <-time.After(hangLimit):
-			harness.Record("hang:Close", r.c, "Close did not return after NEWSTATE DISC / DISCONNECTED: "+r.transcript(8))
+		if !waitDone(done) {
+			harness.Record("hang:Close", r.c, "Close did not return after NEWSTATE DISC / DISCONNECTED: "+r.transcript(8)+stacks())
 			harness.ExitHung()
 		}
 		if csig != "" {
@@ -755,7 +769,10 @@ func stacks() string {
 	buf = buf[:runtime.Stack(buf, true)]
 	var keep []string
 	for _, g := range strings.Split(string(buf), "\n\n") {
-		if strings.Contains(g, "wl2k-go/transport/ardop") {
+		if strings.Contains(g, "ardop.decodeTNCStream") && strings.Contains(g, "[chan send") {
+			continue // left over from earlier cases (the decoder of a closed TNC has nobody to report to)
+		}
+		if strings.Contains(g, "wl2k-go/transport/ardop") || strings.Contains(g, "ardopsim") {
 			keep = append(keep, g)
 		}
 	}
@@ -812,9 +829,7 @@ func (r *runner) malformed() {
 			})
 		}()
 		waitPend = func() {
-			select {
-			case <-pend:
-			case <-time.After(hangLimit):
+			if !waitDone(pend) {
 				harness.Record("hang:Read", c, "a Read that was pending when the TNC link went down never returned")
 				harness.ExitHung()
 			}
@@ -830,14 +845,13 @@ func (r *runner) malformed() {
 	if c.After == "txfail" && !c.TCP && r.conn != nil {
 		r.s.BreakTx() // the line dies in the TX direction first: the next host write fails, then reads see EOF
 		r.call("Write", func() { r.conn.Write([]byte("x")) })
+		r.s.CloseStream(false) // in case the connection was already gone and Write never touched the line
 	} else {
 		r.s.CloseStream(onData)
 	}
 	// the library notices EOF and closes its side; every byte sent before has been consumed by then
-	select {
-	case <-r.s.HostClosed():
-	case <-time.After(hangLimit):
-		harness.Record("hang:link-eof", c, "the library did not close the TNC link within the limit after EOF")
+	if !waitDone(r.s.HostClosed()) {
+		harness.Record("hang:link-eof", c, "the library did not close the TNC link within the limit after EOF: "+r.transcript(8)+stacks())
 		harness.ExitHung()
 	}
 	waitPend() // the link is gone: a Read that was pending returns
@@ -970,6 +984,18 @@ func prop(t *rapid.T) {
 	c := genCase(t)
 	harness.Begin(c)
 	sig, msg, st := run(c)
+	if sig != "" && !strings.HasPrefix(sig, "panic") {
+		// The library has real-time constants (a listener that does not take a message within 500 ms is
+		// dropped, Close gives up after 30 s). On a starved machine they can fire on correct code; a defect
+		// reproduces. A verdict other than a panic is therefore confirmed by one re-execution of the case;
+		// an unconfirmed one is kept visible in the evidence (class unconfirmed:<sig>).
+		sig2, msg2, st2 := run(c)
+		if sig2 == "" {
+			harness.Label("unconfirmed:" + sig)
+			harness.Note("unconfirmed (not reproduced on re-execution): %s: %.300s", sig, msg)
+		}
+		sig, msg, st = sig2, msg2, st2
+	}
 	harness.End()
 	account(c, st, sig)
 	if sig != "" {
